@@ -6,7 +6,7 @@ Require Coq.Strings.String.
 Import Coq.Strings.String.StringSyntax.
 Open Scope N_scope.
 
-(* 1 escape-order | 3 reserved-segment | 4 annotation-qualifier | 10 frontmatter+sentinel | 11 bare-zone-sibling
+(* 1 escape-order | 3 reserved-segment | 4 annotation-qualifier | (10 frontmatter+sentinel: repaired) | 11 bare-zone-sibling
    12 bare-zone-comments | 13 empty-body-comment | 14 comment-dedent | 15 non-finite float
    18 single-item list whose item carries a bare constraint operator (re-read as holographic pattern)
    20 holographic value inside a list/map | 21 outside the content model *)
@@ -84,7 +84,7 @@ Definition meta_clauses (m : list (str * metaval)) : list N :=
                       end) m.
 
 Definition doc_clauses (d : doc) : list N :=
-  (match dfront d, dgrammar d with Some _, Some _ => [10] | _, _ => [] end) ++
+  (* clause 10 (frontmatter + grammar sentinel) is gone since /repo fix f2a06dd: the sentinel is read after leading blank lines *)
   meta_clauses (dmeta d) ++ flat_map node_clauses (dsections d) ++ shape_clauses (doc_shape d).
 
 Definition wf_doc (d : doc) : bool := match doc_clauses d with [] => true | _ => false end.
